@@ -167,7 +167,12 @@ def _r1_r2(run):
                 or ui.term[2][0] != ("op", "enter", (u.term,)):
             problems.append(("update-call", "update path must merge the whole sampled image into the tile read under the lock: "
                              "img.update_into_maskable_buffer(basis, :, :, :, :)"))
-    if problems:
+    if problems and not writes and not updates:
+        # the callback stores nothing itself: the tile goes to an object / helper that is not followed (a sink, a writer class)
+        run.undecided("C06.R1", f, None, "the leaf callback neither writes nor updates a tile in any place the analysis follows (%s): its store is handed to something "
+                      "that is not followed" % problems[0][1][:80], kind="store-opaque")
+        run.undecided("C06.R2", f, None, "row reversal: the store of the leaf callback is not followed", kind="store-opaque")
+    elif problems:
         for kind, msg in problems:
             run.violated("C06.R1" if kind not in ("no-row-reversal", "always-reversed", "reversal-inverted") else "C06.R2", f, None, msg, kind=kind)
     else:
@@ -457,6 +462,14 @@ def _r5(run):
     c03._r6_join(sub, st)
     c03._r2_r3_producer(sub, st, wq)
     c03._worker_rules(sub, st, wq)
+    # "a file for each tile ... regardless of the number of workers": a tile whose sampling failed in a worker must not vanish silently
+    # (the handler-swallow rule of C19 on this stage's worker)
+    from . import C19 as c19
+    sub19 = report.Run("C19", project, run.tier)
+    c19._r3_handlers(sub19, st.worker, "worker of " + st.name, c19._worker_get_calls(st))
+    for o in sub19.obs:
+        if o.verdict != report.HOLDS:
+            sub.obs.append(o)
     for o in sub.obs:
         o.rule = "C06.R5"
         o.kind = (o.kind or "") and ("stage:" + o.kind)
